@@ -24,6 +24,7 @@ type c10Dest struct {
 	Addr   string  `json:"addr,omitempty"`   // address: the text given to ChangeToAddress
 	Script mon.Hex `json:"script,omitempty"` // script: the locking script given to Change; address: the P2PKH script the address stands for
 	Index  uint    `json:"index,omitempty"`  // index: the output designated to ChangeToExistingOutput
+	Shared int     `json:"shared,omitempty"` // script: 1 + the index of the pre-existing output whose very script OBJECT is handed to Change (a caller re-using one *bscript.Script)
 }
 
 type c10In struct {
@@ -180,6 +181,25 @@ func init() {
 					dataDiffers: r.Bool(), index: idx})
 			}
 		}
+		// ---- the change script is the very object an earlier output already holds
+		c.Phase("shared-script-object")
+		n = 0
+		for rep := 0; rep < reps; rep++ {
+			for _, count := range []int{1, 2, 3, 7, 252, 253} {
+				for _, which := range []string{"last", "first", "middle"} {
+					for _, rel := range c10Rels {
+						for k := 0; k < 3; k++ {
+							n++
+							if !c.Case(n) {
+								continue
+							}
+							r := c.Rand(n)
+							c10Run(c, judge, r, &c10Params{count: count, dest: "script:free", rel: rel, index: -1, freeQuote: true, shared: which})
+						}
+					}
+				}
+			}
+		}
 		// ---- free random draws
 		c.Phase("random")
 		N := uint64(20000)
@@ -233,7 +253,7 @@ func init() {
 			}
 		}
 		for _, k := range []string{"outcome:added", "outcome:nothing-added", "outcome:error:insufficient-inputs", "inputs:signed", "inputs:unsigned", "inputs:mixed",
-			"outputs:with-data", "every-index:generated", "existing-output:judged", "existing-output:index=first", "existing-output:index=last", "existing-output:index=middle", "clause:fee-bounds-evaluated", "clause:dust-evaluated"} {
+			"outputs:with-data", "every-index:generated", "existing-output:judged", "existing-output:index=first", "existing-output:index=last", "existing-output:index=middle", "clause:fee-bounds-evaluated", "clause:dust-evaluated", "shared-script-object:judged"} {
 			if a.Cov[k] == 0 {
 				return "counter " + k + " is zero"
 			}
@@ -252,6 +272,7 @@ type c10Params struct {
 	dataDiffers bool
 	index       int // >= 0: the designated index
 	freeQuote   bool
+	shared      string // "", "first", "last", "middle": Change is given the script object of that pre-existing output
 }
 
 func c10Run(c *mon.Ctx, judge func(*mon.Ctx, *c10In), r *prng.R, pr *c10Params) {
@@ -387,6 +408,30 @@ func c10Make(r *prng.R, pr *c10Params) (*c10In, string) {
 			s = gen.P2PKH(r.Bytes(20))
 		}
 		in.Dest = c10Dest{Kind: "script", Script: s}
+	}
+	if pr.shared != "" {
+		if in.Dest.Kind != "script" || len(t.Outs) == 0 {
+			return nil, "shared-script-without-outputs"
+		}
+		g, flat := 0, 0
+		switch pr.shared {
+		case "last":
+			g, flat = len(t.Outs)-1, pr.count-1
+		case "middle":
+			if pr.count > 20 || pr.count < 3 {
+				return nil, "shared-script-middle-needs-3..20-outputs"
+			}
+			g = 1 + r.Intn(pr.count-2)
+			flat = g
+		}
+		if refmoney.IsData(t.Outs[g].Script) || len(t.Outs[g].Script) == 0 {
+			t.Outs[g].Script = nonDataOutputScript(r, 1+r.Intn(60))
+			if r.Bool() {
+				t.Outs[g].Script = gen.P2PKH(r.Bytes(20))
+			}
+		}
+		in.Dest.Script = append([]byte{}, t.Outs[g].Script...)
+		in.Dest.Shared = flat + 1
 	}
 	// amounts from the model, then signatures for those amounts (repeat while signature lengths move)
 	dust := uint64(bt.DustLimit)
@@ -525,6 +570,10 @@ func c10Judge(c *mon.Ctx, in *c10In) {
 	case "script":
 		api = "Change"
 		s := bscriptOf(in.Dest.Script)
+		if j := in.Dest.Shared - 1; j >= 0 && j < len(tx.Outputs) && tx.Outputs[j] != nil && tx.Outputs[j].LockingScript != nil && bytes.Equal(*tx.Outputs[j].LockingScript, in.Dest.Script) {
+			s = tx.Outputs[j].LockingScript // the caller pays and takes change with ONE script object
+			c.Count("shared-script-object:judged")
+		}
 		ok = c.Try("bt.(*Tx).Change", func() { err = tx.Change(s, fq) })
 	case "index":
 		api = "ChangeToExistingOutput"
